@@ -1,8 +1,8 @@
 #!/usr/bin/env python3
-"""Copy a confirmed seeded change from the sub-agent scratch area into /verif/seeded/<ID>/<name>/ with meta.json."""
+"""Copy a confirmed seeded change from the sub-agent scratch area into /verif/seeded/<ID>-<name>/ with meta.json."""
 import json, os, shutil, sys
 src, pid, name, detected, note = sys.argv[1:6]
-dst = os.path.join('/verif/seeded', pid, name)
+dst = os.path.join('/verif/seeded', '%s-%s' % (pid, name))
 os.makedirs(dst, exist_ok=True)
 for f in ('patch.diff', 'demo.py'):
     shutil.copy(os.path.join(src, f), os.path.join(dst, f))
@@ -10,7 +10,7 @@ m = json.load(open(os.path.join(src, 'meta.json')))
 m.update(property=pid,
          confirmed=dict(how='tools/seeded.py verify: demo.py exits 0 on a clean copy of /repo and non-zero on the patched copy; '
                             'the 400 baseline tests still pass with the patch (409 passed in total)', result='CONFIRMED'),
-         ran='tools/seeded.py run %s seeded/%s/%s  (git -C /repo apply; ./check %s --tier quick; git -C /repo checkout -- .)' % (pid, pid, name, pid),
+         ran='tools/seeded.py run %s seeded/%s-%s [--in-repo]  (patch applied to a scratch copy of /repo pointed at by VERIF_REPO, or with --in-repo: git -C /repo apply; ./check %s --tier quick; git -C /repo checkout -- .)' % (pid, pid, name, pid),
          detected=detected, note=note)
 json.dump(m, open(os.path.join(dst, 'meta.json'), 'w'), indent=1)
 print(dst)
